@@ -4,9 +4,9 @@
    timedout) and Model/Client.v (UdpClient setters/connect, ServerContext settings, the server
    sweep's drop test). *)
 From RecordUpdate Require Import RecordUpdate.
-From Model Require Import Base SeqNum Wire Conn Client Net TimedNet.
+From Model Require Import Base SeqNum Wire Conn Client Net Server TimedNet.
 Import RecordSetNotations.
-From Proofs Require Import ConnFrameP NonceP PackP TimingP IdleP C12P.
+From Proofs Require Import ConnFrameP NonceP PackP TimingP IdleP IdleSrvP C12P.
 Open Scope Z_scope.
 
 (* 1. Keep-alive: an idle CONNECTED endpoint whose last packet is older than the keep-alive
@@ -138,6 +138,15 @@ Print Assumptions C12_idle_pair_cadence.
 Theorem C12_idle_pair_prefix : forall e P vs1 n vs2, tvalid e P n (vs1 ++ vs2) -> tvalid e P n vs1.
 Proof. exact tvalid_app. Qed.
 Print Assumptions C12_idle_pair_prefix.
+
+(*    server_sweep, the server-side step of the pair, is what the sweep of the full server-loop model
+      (Model/Server.v, tied to server.py) does to a CONNECTED client it does not remove: *)
+Theorem C12_server_sweep_is_the_server_loop : forall h e s now cid cl c' o,
+  pfind cid (s_conns s) = Some cl -> c_status (cl_conn cl) = CONNECTED ->
+  server_sweep e (g_conn_timeout (s_cfg s)) (cl_conn cl) now = (c', o, false) ->
+  exists s' so pp, sweep_conn h e s now cid = (s', so, pp) /\ pfind cid (s_conns s') = Some (with_conn cl c').
+Proof. exact sweep_conn_is_server_sweep. Qed.
+Print Assumptions C12_server_sweep_is_the_server_loop.
 
 (*    The quantifier "keep-alive < timeout" of the property text is not enough, even over a perfect
       network (d = 0): with the client's keep-alive interval 75000 ticks (4.88 s) < T = 76800 (5 s)
